@@ -230,3 +230,20 @@ def unlinked_manifests_are_wellformed(sc, v):
                 except Exception:
                     return False
     return True
+
+
+def noncanonical_entry_path_and_subdirectory_update(sc, v):
+    """KF-NONCANON-SUBDIR: some prior Manifest holds a file entry whose path is spelled with a `.` component (`./x/f`, `x/./f`)
+    and the failing operation is an update of a sub-directory (the detail names its path)."""
+    import re
+    def odd(pth):
+        comps = pth.split('/')
+        return '.' in comps
+    has = any(odd(e.get('path', '')) for m in sc.get('manifests', []) for e in m.get('entries', []) if e.get('tag') in ('DATA', 'EBUILD', 'MISC', 'AUX'))
+    for r in sc.get('rounds', []):
+        for e in r.get('edits', []):
+            if e.get('m') == 'manifest':
+                has = has or any(odd(x.get('path', '')) for x in e.get('entries', []))
+    if not has:
+        return False
+    return bool(re.search(r"update\([^)]*path='[^']", v.get('detail', '')))
